@@ -173,9 +173,32 @@ pub fn sockaddr(rng: &mut Rng) -> SocketAddr {
         wire::v4(b[0], b[1], b[2], b[3], port)
     } else {
         let mut o = [0u8; 16];
-        match rng.below(8) {
+        match rng.below(12) {
             0 => {}
             1 => o = [0xFF; 16],
+            // structured forms an implementation might be tempted to normalise:
+            // IPv4-mapped ::ffff:a.b.c.d, IPv4-compatible ::a.b.c.d, loopback, link-local, 6to4
+            2 | 3 => {
+                o[10] = 0xFF;
+                o[11] = 0xFF;
+                let x = rng.next_u32().to_be_bytes();
+                o[12..].copy_from_slice(&x);
+            }
+            4 => {
+                let x = rng.next_u32().to_be_bytes();
+                o[12..].copy_from_slice(&x);
+            }
+            5 => o[15] = 1,
+            6 => {
+                rng.fill(&mut o);
+                o[0] = 0xFE;
+                o[1] = 0x80;
+            }
+            7 => {
+                rng.fill(&mut o);
+                o[0] = 0x20;
+                o[1] = 0x02;
+            }
             _ => rng.fill(&mut o),
         }
         wire::v6(o, port)
@@ -440,7 +463,35 @@ pub fn message(rng: &mut Rng, max_attrs: usize, cfg: &GenCfg) -> LMsg {
     let tb = rng.below(8) as u8;
     attrs.extend(tail(tb));
     let key = if tb & 3 != 0 { Some(key_spec(rng)) } else { None };
-    LMsg { method: method(rng), class: rng.below(4) as u8, txid: txid(rng), attrs, key }
+    let mut m = LMsg { method: method(rng), class: rng.below(4) as u8, txid: txid(rng), attrs, key };
+    xor_wire_structured(rng, &mut m);
+    m
+}
+
+/// Sometimes gives an XOR-ed IPv6 address the value whose WIRE form (address xor magic cookie
+/// and transaction id) is IPv4-mapped / all-zero, so that a codec which interprets the bytes
+/// before un-XOR-ing them shows.
+pub fn xor_wire_structured(rng: &mut Rng, m: &mut LMsg) {
+    let mut mask = [0u8; 16];
+    mask[..4].copy_from_slice(&wire::COOKIE.to_be_bytes());
+    mask[4..].copy_from_slice(&m.txid);
+    for a in m.attrs.iter_mut() {
+        if let LAttr::XorMappedAddress(s) | LAttr::XorPeerAddress(s) | LAttr::XorRelayedAddress(s) = a {
+            if s.is_ipv6() && rng.chance(1, 6) {
+                let mut o = [0u8; 16];
+                if rng.bool() {
+                    o[10] = 0xFF;
+                    o[11] = 0xFF;
+                    let x = rng.next_u32().to_be_bytes();
+                    o[12..].copy_from_slice(&x);
+                }
+                for i in 0..16 {
+                    o[i] ^= mask[i];
+                }
+                *s = wire::v6(o, s.port());
+            }
+        }
+    }
 }
 
 pub fn describe_attr(a: &LAttr) -> String {
